@@ -40,7 +40,7 @@ ConvUsage(us) == [i \in 1..Len(us) |->
                     [rg |-> us[i].rg, req |-> us[i].req,
                      conts |-> [j \in 1..Len(us[i].conts) |->
                                  [m |-> us[i].conts[j].m, vol |-> us[i].conts[j].vol, id |-> us[i].conts[j].c]]]]
-ConvMui(m) == [i \in 1..Len(m) |-> [rg |-> m[i].rg, granted |-> m[i].granted, fui |-> m[i].fui]]
+ConvMui(m) == [i \in 1..Len(m) |-> [rg |-> m[i].rg, granted |-> m[i].granted, fui |-> m[i].fui, trig |-> m[i].trig]]
 
 V(prop, clause, sit) == [prop |-> prop, clause |-> clause, trace |-> Ev.trace, step |-> Ev.seq, sit |-> sit]
 D(what) == [trace |-> Ev.trace, step |-> Ev.seq, action |-> Ev.action, what |-> what]
